@@ -16,13 +16,19 @@ NoteDrift(n) == TLCSet(3, TLCGet(3) \cup {n})
 See(p, obs) == seen \o [i \in 1..Len(obs) |-> [p |-> p, k |-> obs[i].k, v |-> obs[i].v]]
 
 NOf(t) == IF t.params.n = "1" THEN 1 ELSE IF t.params.n = "2" THEN 2 ELSE 3
-ScenOf(t) == [n |-> NOf(t), form |-> t.params.form, second |-> IF "second" \in DOMAIN t.params THEN t.params.second ELSE "get"]
+\* SharedFuture inputs (static / dynamic shared events) and WaitUntil are not modelled by Wait.tla: such executions are
+\* judged by the abstract monitors only (drift from the first line, no note); `seen' starts with a scenario marker
+PKind(t) == IF "kind" \in DOMAIN t.params THEN t.params.kind ELSE "unique"
+Modelled(t) == PKind(t) = "unique" /\ t.params.form \notin {"wait_until", "wait_until_it"}
+Seed(t) == IF Modelled(t) THEN <<>> ELSE <<[p |-> "root", k |-> "scenario", v |-> PKind(t)]>>
+FormOf(t) == IF t.params.form = "wait_until" THEN "wait_for" ELSE IF t.params.form = "wait_until_it" THEN "wait_for_it" ELSE t.params.form
+ScenOf(t) == [n |-> NOf(t), form |-> FormOf(t), second |-> IF "second" \in DOMAIN t.params THEN t.params.second ELSE "get"]
 
 TInit ==
   /\ TLCSet(1, {}) /\ TLCSet(2, 1) /\ TLCSet(3, {})
   /\ T[1].e = "begin"
   /\ InitScen(ScenOf(T[1]))
-  /\ l = 2 /\ seen = <<>> /\ drift = FALSE
+  /\ l = 2 /\ seen = Seed(T[1]) /\ drift = ~Modelled(T[1])
 
 Conform(t) ==
   /\ Step
@@ -46,7 +52,7 @@ TTime ==
 TDrift ==
   /\ l <= Len(T) /\ T[l].e \in {"op", "time"}
   /\ drift \/ (T[l].e = "op" /\ ~ENABLED Conform(T[l])) \/ (T[l].e = "time" /\ ~ENABLED Timeout)
-  /\ drift' = TRUE /\ NoteDrift(l)
+  /\ drift' = TRUE /\ (IF Len(seen) > 0 /\ seen[1].k = "scenario" THEN TRUE ELSE NoteDrift(l))
   /\ seen' = IF T[l].e = "op" THEN See(T[l].p, T[l].obs) ELSE Append(seen, [p |-> "clock", k |-> "time", v |-> ""])
   /\ UNCHANGED vars
   /\ l' = l + 1 /\ Progress(l')
@@ -61,7 +67,7 @@ TEnd ==
 TBegin ==
   /\ l <= Len(T) /\ T[l].e = "begin"
   /\ ResetScen(ScenOf(T[l]))
-  /\ seen' = <<>> /\ drift' = FALSE
+  /\ seen' = Seed(T[l]) /\ drift' = ~Modelled(T[l])
   /\ l' = l + 1 /\ Progress(l')
 
 TNext == TOp \/ TTime \/ TDrift \/ TEnd \/ TBegin
